@@ -621,11 +621,21 @@ func (e *Engine) resolveAssign(s *State, env *Env, a string, w *WriteSet) {
 		// also make sure the key exists for types not yet touched
 		if env != nil && env.pkg != nil {
 			var obj types.Object
-			if k2 := strings.Index(tn, "."); k2 > 0 {
+			if strings.Contains(tn, "/") {
+				// full import path: path/to/pkg.Type
+				k3 := strings.LastIndex(tn, ".")
+				for _, imp := range env.pkg.Imports() {
+					if k3 > 0 && imp.Path() == tn[:k3] {
+						obj = imp.Scope().Lookup(tn[k3+1:])
+					}
+				}
+			} else if k2 := strings.Index(tn, "."); k2 > 0 {
 				// imported type: pkgname.Type
 				for _, imp := range env.pkg.Imports() {
 					if imp.Name() == tn[:k2] {
-						obj = imp.Scope().Lookup(tn[k2+1:])
+						if o := imp.Scope().Lookup(tn[k2+1:]); o != nil {
+							obj = o
+						}
 					}
 				}
 			} else {
